@@ -12,7 +12,7 @@ Proof. split; reflexivity. Qed.
 
 (* hence, e.g., the insert theorem for the SegmentedArray instantiation *)
 Theorem seg_shift_insert_spec (items : Z -> Z) cnt cap_ index count it :
-  0 <= index -> index <= cnt -> 0 <= count -> cnt + count <= cap_ -> cap_ < ShiftLoopProofs.U64 - 1 ->
+  0 <= index -> index <= cnt -> 0 <= count -> cnt + count <= cap_ -> cap_ < ShiftLoopProofs.U64 ->
   (it < index \/ cnt + count <= it) ->
   exists items', Gen_ShiftLoopsSeg.ShiftInsert items cnt cap_ index count it = Ok (tt, items', cnt + count) /\
     (forall j, j < index -> items' j = items j) /\
@@ -22,7 +22,7 @@ Theorem seg_shift_insert_spec (items : Z -> Z) cnt cap_ index count it :
 Proof. destruct shift_same_code as (_ & ->). exact (ShiftLoopProofs.shift_insert_spec items cnt cap_ index count it). Qed.
 
 Theorem seg_shift_remove_spec (items : Z -> Z) cnt cap_ index count :
-  0 <= index -> 0 <= count -> index + count <= cnt -> cnt <= cap_ -> cap_ < ShiftLoopProofs.U64 - 1 ->
+  0 <= index -> 0 <= count -> index + count <= cnt -> cnt <= cap_ -> cap_ < ShiftLoopProofs.U64 ->
   exists items', Gen_ShiftLoopsSeg.ShiftRemove items cnt cap_ index count = Ok (tt, items', cnt - count) /\
     (forall j, j < index -> items' j = items j) /\
     (forall j, index <= j < cnt - count -> items' j = items (j + count)) /\
